@@ -36,13 +36,23 @@ def mk_cases(cid, nums, conns, kw, rng, origin, lo_shift=True):
     """One abstract list -> three concrete cases (find_sec, PLSSDesc, Tract lots)."""
     k = len(nums)
     cases = []
-    for flavour in ("find_sec", "plss", "lots"):
-        top = 99 if flavour != "lots" else 999
+    for flavour in ("find_sec", "plss", "lots", "ctx_lots"):
+        top = 99 if flavour not in ("lots", "ctx_lots") else 999
         d = rng.randint(0, top - max(nums)) if lo_shift else 0
         ns = [n + d for n in nums]
         if flavour == "lots":
             text = render_list(ns, conns, kw, LOT_WORDS, LOT_REPEAT, rng)
             args = {"text": text, "flavour": flavour}
+        elif flavour == "ctx_lots":
+            # the list after an earlier lot and an aliquot; the earlier lot is written like the beginning of the list
+            # ('Lots 1, SE/4NE/4, Lots 10 - 12'), so that a parser working on the text of a match, not its position, trips
+            text = render_list(ns, conns, kw, LOT_WORDS, LOT_REPEAT, rng)
+            import re as _re
+            m = _re.match(r"(\D*)(\d+)", text)
+            first = m.group(2)
+            lead = int(first[:rng.randint(1, len(first))])
+            args = {"text": "%s%d, %s, %s" % (m.group(1), lead, rng.choice(["SE/4NE/4", "N/2SW/4", "NW/4"]), text),
+                    "flavour": flavour, "lead": lead}
         else:
             text = render_list(ns, conns, kw, SEC_WORDS, SEC_REPEAT, rng)
             args = {"text": text, "flavour": flavour}
